@@ -23,9 +23,12 @@ import time
 
 ROOT = os.path.normpath(os.path.join(os.path.dirname(os.path.abspath(__file__)), ".."))
 REPO = os.environ.get("VERIF_REPO", "/repo")
-COQ = os.path.join(ROOT, "coq")
-HARNESS = os.path.join(ROOT, "harness")
-OUT = os.path.join(ROOT, "out")
+# the three directories below can be redirected for isolated development runs against a scratch
+# copy of the repository (tools/seedtest.py); the registered checks never set these variables
+COQ = os.environ.get("VERIF_COQ", os.path.join(ROOT, "coq"))
+HARNESS = os.environ.get("VERIF_HARNESS", os.path.join(ROOT, "harness"))
+OUT = os.environ.get("VERIF_OUT", os.path.join(ROOT, "out"))
+EVIDENCE = os.environ.get("VERIF_EVIDENCE", os.path.join(ROOT, "evidence"))
 GEN = os.path.join(HARNESS, "target", "release", "gen")
 JOBS = int(os.environ.get("VERIF_JOBS", "16"))
 
@@ -362,8 +365,8 @@ def load_known():
 
 
 def write_evidence(pid, ev):
-    os.makedirs(os.path.join(ROOT, "evidence"), exist_ok=True)
-    with open(os.path.join(ROOT, "evidence", pid + ".json"), "w", encoding="utf-8") as fh:
+    os.makedirs(EVIDENCE, exist_ok=True)
+    with open(os.path.join(EVIDENCE, pid + ".json"), "w", encoding="utf-8") as fh:
         json.dump(ev, fh, indent=1, sort_keys=True)
         fh.write("\n")
 
